@@ -171,6 +171,19 @@ CLAIMED['C11'] = dict(
          'here.',
     design_ref='3 (C11)')
 
+CLAIMED['C13'] = dict(
+    technique='bounded symbolic execution of the real Union.split / trim / '
+              'sample from an arbitrary well-formed union record (inductive '
+              'step), Gaussian-mixture scores havocked, member ellipsoids as '
+              'contract stubs; volume clause by nlsat on the linear twin',
+    text='For every labelling, top-up order, volume outcome and proposal '
+         'outcome within the bounds z3 shows the union record stays '
+         'well-formed, both split products reach the minimum size, points '
+         'are conserved, refused operations change nothing and nothing '
+         'raises; induction extends this to operation sequences of any '
+         'length.',
+    design_ref='4 (C13)')
+
 NOT_APPLICABLE = {
     'C04': 'statement about the distribution of whole-program outputs over '
            'seed ensembles; no bounded symbolic input space decides it '
